@@ -57,6 +57,58 @@ def NoMagicIn : Bytes → Bytes → Prop
   | [], _ => True
   | b :: f, rest => ¬ StartsMagic (b :: f ++ rest) ∧ NoMagicIn f rest
 
+/-- the recovery tool accepts no block at the start of `r`: either no magic number starts there, or
+    the candidate that follows the magic number is rejected -/
+def InertAt (r : Bytes) : Prop :=
+  (r.take 8 = Recovery.metadataMagic → Recovery.readMetadata (r.drop 8) = none) ∧
+  (r.take 8 = Recovery.dataMagic → Recovery.readData (r.drop 8) = .ok none)
+
+/-- At no position of `f` (followed by `rest`) does the recovery tool accept a block: either no magic
+    number starts there, or the candidate that follows the magic number is rejected
+    (`readMetadata … = none`, `readData … = .ok none`).  Real images contain stale copies of the
+    magic numbers (a local variable in a dead stack frame, …) followed by garbage; this is the
+    condition that covers them. -/
+def Inert : Bytes → Bytes → Prop
+  | [], _ => True
+  | b :: f, rest =>
+      ((b :: f ++ rest).take 8 = Recovery.metadataMagic → Recovery.readMetadata ((b :: f ++ rest).drop 8) = none) ∧
+      ((b :: f ++ rest).take 8 = Recovery.dataMagic → Recovery.readData ((b :: f ++ rest).drop 8) = .ok none) ∧
+      Inert f rest
+
+theorem inert_cons (b : UInt8) (f rest : Bytes) :
+    Inert (b :: f) rest ↔ InertAt (b :: (f ++ rest)) ∧ Inert f rest :=
+  ⟨fun h => ⟨⟨h.1, h.2.1⟩, h.2.2⟩, fun h => ⟨h.1.1, h.1.2, h.2⟩⟩
+
+theorem inert_of_noMagicIn {f rest : Bytes} (h : NoMagicIn f rest) : Inert f rest := by
+  induction f with
+  | nil => trivial
+  | cons b f ih =>
+    have h' : ¬ StartsMagic (b :: (f ++ rest)) ∧ NoMagicIn f rest := h
+    exact ⟨fun e => absurd (.inl e) h'.1, fun e => absurd (.inr e) h'.1, ih h'.2⟩
+
+/-- At the start of `r` the tool accepts no block, or it accepts one whose buffer is EMPTY and which
+    ends within the next `room` bytes (e.g. a stale metadata magic number followed by a pointer —
+    taken as session id — and eight zero bytes: size 0). -/
+def InertEAt (r : Bytes) (room : Nat) : Prop :=
+  (r.take 8 = Recovery.metadataMagic → Recovery.readMetadata (r.drop 8) = none ∨
+      ∃ b n, Recovery.readMetadata (r.drop 8) = some (b, n) ∧ b.buffer = [] ∧ 8 + n ≤ room) ∧
+  (r.take 8 = Recovery.dataMagic → Recovery.readData (r.drop 8) = .ok none ∨
+      ∃ b n, Recovery.readData (r.drop 8) = .ok (some (b, n)) ∧ b.buffer = [] ∧ 8 + n ≤ room)
+
+/-- Like `Inert`, but a candidate may also be ACCEPTED provided the recovered buffer is empty and the
+    accepted junk block lies entirely inside `f` (the scan resumes within `f`).  Such buffers carry
+    arbitrary session ids and add nothing to the output. -/
+def InertE : Bytes → Bytes → Prop
+  | [], _ => True
+  | b :: f, rest => InertEAt (b :: (f ++ rest)) (f.length + 1) ∧ InertE f rest
+
+theorem inertE_of_inert {f rest : Bytes} (h : Inert f rest) : InertE f rest := by
+  induction f with
+  | nil => trivial
+  | cons b f ih =>
+    obtain ⟨h1, h2⟩ := (inert_cons b f rest).mp h
+    exact ⟨⟨fun e => .inl (h1.1 e), fun e => .inl (h1.2 e)⟩, ih h2⟩
+
 /-! ### a metadata stream at any instant -/
 
 inductive MetaState where
@@ -165,6 +217,72 @@ def flat : List (Bytes × Piece) → Bytes → Bytes
 def ImageOk : List (Bytes × Piece) → Bytes → Prop
   | [], t => NoMagicIn t []
   | (f, p) :: rest, t => NoMagicIn f (p.bytes ++ flat rest t) ∧ p.Ok (flat rest t) ∧ ImageOk rest t
+
+/-- Side conditions of a block followed by `rest`, weakest form: the parts the scan looks into may
+    contain magic numbers, provided the tool rejects the candidate behind each of them. -/
+def Piece.OkI (rest : Bytes) : Piece → Prop
+  | .metaOn s es extra => s < 2 ^ 64 ∧ (frames es).length < 2 ^ 64 ∧ (∀ p ∈ es, PayloadOk p) ∧ Inert extra rest
+  | .chan s c => if c.magicOn then s < 2 ^ 64 ∧ c.cap < 2 ^ 64 ∧ c.Ok else Inert (c.block s) rest
+  | .off bs => Inert bs rest
+
+/-- Side conditions of an image, weakest form: at no position outside the blocks that carry a magic
+    (and outside the buffers the tool jumps over) does the tool accept a block.  No separate
+    "no straddling" condition is needed: after a rejection the scan resumes 8 bytes later, and a
+    rejected magic number cannot end inside the magic number of a following block (the last magic
+    byte 0xFE occurs in neither magic number at positions 0..6), see `Lemmas/ImageInert.lean`. -/
+def ImageOkI : List (Bytes × Piece) → Bytes → Prop
+  | [], t => Inert t []
+  | (f, p) :: rest, t => Inert f (p.bytes ++ flat rest t) ∧ p.OkI (flat rest t) ∧ ImageOkI rest t
+
+theorem Piece.okI_of_ok {p : Piece} {rest : Bytes} (h : p.Ok rest) : p.OkI rest := by
+  cases p with
+  | metaOn s es extra => exact ⟨h.1, h.2.1, h.2.2.1, inert_of_noMagicIn h.2.2.2⟩
+  | chan s c =>
+    simp only [Piece.Ok] at h
+    simp only [Piece.OkI]
+    by_cases hm : c.magicOn = true
+    · rw [if_pos hm] at h ⊢; exact h
+    · rw [if_neg hm] at h ⊢; exact inert_of_noMagicIn h
+  | off bs => exact inert_of_noMagicIn h
+
+theorem imageOkI_of_imageOk {img : List (Bytes × Piece)} {t : Bytes} (h : ImageOk img t) : ImageOkI img t := by
+  induction img with
+  | nil => exact inert_of_noMagicIn h
+  | cons x rest ih =>
+    obtain ⟨f, p⟩ := x
+    have h' : NoMagicIn f (p.bytes ++ flat rest t) ∧ p.Ok (flat rest t) ∧ ImageOk rest t := h
+    exact ⟨inert_of_noMagicIn h'.1, Piece.okI_of_ok h'.2.1, ih h'.2.2⟩
+
+/-- `Piece.OkI` with `InertE` for the parts the scan looks into -/
+def Piece.OkE (rest : Bytes) : Piece → Prop
+  | .metaOn s es extra => s < 2 ^ 64 ∧ (frames es).length < 2 ^ 64 ∧ (∀ p ∈ es, PayloadOk p) ∧ InertE extra rest
+  | .chan s c => if c.magicOn then s < 2 ^ 64 ∧ c.cap < 2 ^ 64 ∧ c.Ok else InertE (c.block s) rest
+  | .off bs => InertE bs rest
+
+/-- Side conditions of an image that may also contain junk magic numbers behind which the tool
+    accepts an EMPTY buffer (`InertE`). -/
+def ImageOkE : List (Bytes × Piece) → Bytes → Prop
+  | [], t => InertE t []
+  | (f, p) :: rest, t => InertE f (p.bytes ++ flat rest t) ∧ p.OkE (flat rest t) ∧ ImageOkE rest t
+
+theorem Piece.okE_of_okI {p : Piece} {rest : Bytes} (h : p.OkI rest) : p.OkE rest := by
+  cases p with
+  | metaOn s es extra => exact ⟨h.1, h.2.1, h.2.2.1, inertE_of_inert h.2.2.2⟩
+  | chan s c =>
+    simp only [Piece.OkI] at h
+    simp only [Piece.OkE]
+    by_cases hm : c.magicOn = true
+    · rw [if_pos hm] at h ⊢; exact h
+    · rw [if_neg hm] at h ⊢; exact inertE_of_inert h
+  | off bs => exact inertE_of_inert h
+
+theorem imageOkE_of_imageOkI {img : List (Bytes × Piece)} {t : Bytes} (h : ImageOkI img t) : ImageOkE img t := by
+  induction img with
+  | nil => exact inertE_of_inert h
+  | cons x rest ih =>
+    obtain ⟨f, p⟩ := x
+    have h' : Inert f (p.bytes ++ flat rest t) ∧ p.OkI (flat rest t) ∧ ImageOkI rest t := h
+    exact ⟨inertE_of_inert h'.1, Piece.okE_of_okI h'.2.1, ih h'.2.2⟩
 
 /-- side conditions of an image, simple form: fillers, unused capacity and blocks without a magic
     number do not contain the byte 0xBC -/
